@@ -7,14 +7,15 @@
    The fragment is delimited by a decidable trace condition (compile_trace): the objective and every constraint the main
    loop takes from its queue - source constraints and the rows the arms pushed back - goes down the arithmetic path (not an
    assertion, not taken by the logic-constraint test) and, once rewritten by flatten/simplify, contains only arithmetic,
-   abs, min and max nodes over names declared so far, with no operand of a min / max pruned as dominated (noprune; the
-   pruning rule itself is outside this theorem).  The condition is evaluated on every tied model by the correspondence
-   check.  The file name is historical: the development started with abs. *)
+   abs, min and max nodes over names declared so far.  The dominated-operand pruning of min / max is covered
+   (Proof/Pruning.v: the extreme over the retained operands is the extreme over all of them at every point of the box).
+   The condition is evaluated on every tied model by the correspondence check.  The file name is historical: the
+   development started with abs. *)
 From Coq Require Import QArith Qreals Reals ZArith Bool List String Lra Lia Permutation Sorting.Sorted.
 From Rooc Require Import Base.XQ Model.Exp Model.Sem Model.Flatten Model.Simplify Model.Bounds Model.Linearize Model.Spec
   Proof.XQFacts Proof.SemFacts Proof.AListFacts Proof.IntervalSound Proof.BoundsOfSound Proof.AffineSound Proof.LinAffine
   Proof.ExpInd Proof.LinFrame Proof.WellFormed Proof.SimplifyMain Proof.FlattenSound Proof.PropagateSound Proof.PublishSound
-  Proof.PublishedCompile Proof.TightenSound Proof.ShrinkSound Proof.ArmLemmas Proof.CompileAffine.
+  Proof.PublishedCompile Proof.TightenSound Proof.ShrinkSound Proof.ArmLemmas Proof.CompileAffine Proof.Pruning.
 Import ListNotations.
 Local Close Scope Q_scope.
 Local Open Scope R_scope.
@@ -251,58 +252,6 @@ Proof.
     all: try (destruct e2; try reflexivity; rewrite E1; reflexivity).
     all: try (destruct e1; try (destruct e2; try reflexivity; rewrite E1; reflexivity); try (rewrite E2; reflexivity)).
   - destruct op; [|reflexivity]. cbn [bounds_of xvars] in *. rewrite (IHe A). reflexivity.
-Qed.
-
-(* ---------- no operand of a min / max is pruned as dominated (a side condition of the fragment, decided on the state) *)
-Fixpoint list_nat_eqb (a b : list nat) : bool :=
-  match a, b with
-  | [], [] => true
-  | x :: xs, y :: ys => Nat.eqb x y && list_nat_eqb xs ys
-  | _, _ => false
-  end.
-Lemma list_nat_eqb_eq a : forall b, list_nat_eqb a b = true -> a = b.
-Proof.
-  induction a as [|x xs IH]; intros [|y ys] H; try discriminate; [reflexivity|]. cbn in H. apply andb_true_iff in H as [H1 H2].
-  apply Nat.eqb_eq in H1. subst. f_equal. apply IH. exact H2.
-Qed.
-Fixpoint noprune (an : astate) (e : exp) : bool :=
-  match e with
-  | BinOp _ a b => noprune an a && noprune an b
-  | UnOp _ x | Abs x => noprune an x
-  | Max l => (fix all (l : list exp) : bool := match l with [] => true | x :: xs => noprune an x && all xs end) l
-             && list_nat_eqb (retained_indices KMax (map (bounds_of an) l)) (seq O (List.length l))
-  | Min l => (fix all (l : list exp) : bool := match l with [] => true | x :: xs => noprune an x && all xs end) l
-             && list_nat_eqb (retained_indices KMin (map (bounds_of an) l)) (seq O (List.length l))
-  | _ => true
-  end.
-Lemma noprune_list an l : (fix all (l : list exp) : bool := match l with [] => true | x :: xs => noprune an x && all xs end) l = forallb (noprune an) l.
-Proof. induction l as [|x xs IH]; [reflexivity|]. cbn [forallb]. rewrite <- IH. reflexivity. Qed.
-Lemma noprune_Max an l : noprune an (Max l) = forallb (noprune an) l && list_nat_eqb (retained_indices KMax (map (bounds_of an) l)) (seq O (List.length l)).
-Proof. cbn [noprune]. rewrite noprune_list. reflexivity. Qed.
-Lemma noprune_Min an l : noprune an (Min l) = forallb (noprune an) l && list_nat_eqb (retained_indices KMin (map (bounds_of an) l)) (seq O (List.length l)).
-Proof. cbn [noprune]. rewrite noprune_list. reflexivity. Qed.
-Lemma forallb_ext_in (p q : exp -> bool) l : Forall (fun e => p e = q e) l -> forallb p l = forallb q l.
-Proof. induction 1 as [|x l Hx _ IH]; [reflexivity|]. cbn [forallb]. rewrite Hx, IH. reflexivity. Qed.
-Lemma map_ext_Forall {B} (f g : exp -> B) l : Forall (fun e => f e = g e) l -> map f l = map g l.
-Proof. induction 1 as [|x l Hx _ IH]; [reflexivity|]. cbn [map]. rewrite Hx, IH. reflexivity. Qed.
-Lemma noprune_ext a a' : forall e, (forall n, In n (xvars e) -> a_get a n = a_get a' n) -> noprune a e = noprune a' e.
-Proof.
-  induction e using exp_ind'; intros A; try reflexivity.
-  - cbn [noprune xvars] in *. exact (IHe A).
-  - rewrite xvars_Min in A. rewrite !noprune_Min.
-    assert (F1 : Forall (fun e => noprune a e = noprune a' e) l).
-    { apply Forall_forall. intros e He. apply (proj1 (Forall_forall _ _) H e He). intros n Hn. apply A. apply in_flat_map. exists e. split; assumption. }
-    assert (F2 : Forall (fun e => bounds_of a e = bounds_of a' e) l).
-    { apply Forall_forall. intros e He. apply bounds_of_ext. intros n Hn. apply A. apply in_flat_map. exists e. split; assumption. }
-    rewrite (forallb_ext_in _ _ _ F1), (map_ext_Forall _ _ _ F2). reflexivity.
-  - rewrite xvars_Max in A. rewrite !noprune_Max.
-    assert (F1 : Forall (fun e => noprune a e = noprune a' e) l).
-    { apply Forall_forall. intros e He. apply (proj1 (Forall_forall _ _) H e He). intros n Hn. apply A. apply in_flat_map. exists e. split; assumption. }
-    assert (F2 : Forall (fun e => bounds_of a e = bounds_of a' e) l).
-    { apply Forall_forall. intros e He. apply bounds_of_ext. intros n Hn. apply A. apply in_flat_map. exists e. split; assumption. }
-    rewrite (forallb_ext_in _ _ _ F1), (map_ext_Forall _ _ _ F2). reflexivity.
-  - cbn [noprune xvars] in *. rewrite IHe1, IHe2; [reflexivity| |]; intros n Hn; apply A; apply in_or_app; [right|left]; exact Hn.
-  - cbn [noprune xvars] in *. exact (IHe A).
 Qed.
 
 (* ---------- n-ary extremes *)
@@ -998,8 +947,6 @@ Proof. apply evg_Num_inv. Qed.
 
 Lemma grows_aget s s' k : grows s s' -> In k (keys s) -> a_get (s_an s') k = a_get (s_an s) k.
 Proof. intros [[_ _ B] _] Hk. apply B. apply in_keys_mem. exact Hk. Qed.
-Lemma noprune_grows s s' e : grows s s' -> incl (xvars e) (keys s) -> noprune (s_an s') e = noprune (s_an s) e.
-Proof. intros G Ix. apply noprune_ext. intros k Hk. apply (grows_aget s s' k G). apply Ix. exact Hk. Qed.
 Lemma bounds_of_grows s s' e : grows s s' -> incl (xvars e) (keys s) -> bounds_of (s_an s') e = bounds_of (s_an s) e.
 Proof. intros G Ix. apply bounds_of_ext. intros k Hk. apply (grows_aget s s' k G). apply Ix. exact Hk. Qed.
 
@@ -1072,34 +1019,105 @@ Qed.
 Lemma xq_sub_Fin a b : exists c, xq_sub (Fin a) (Fin b) = Fin c /\ Q2R c = Q2R a - Q2R b.
 Proof. eexists. split; [reflexivity|]. rewrite Q2R_qn, Q2R_plus, Q2R_qn, Q2R_opp. lra. Qed.
 
+Lemma lin_spec_equiv e e' r s c s' : (forall sigma, st_sat s sigma -> ev sigma e = ev sigma e') -> lin_spec e' r s c s' -> lin_spec e r s c s'.
+Proof.
+  intros Hv [I1 [G1 [K1 [F1 [S1 C1]]]]]. split; [exact I1|]. split; [exact G1|]. split; [exact K1|]. split; [exact F1|]. split.
+  - intros sigma v S Hev. apply S1; [exact S|]. rewrite <- (Hv sigma (st_sat_back _ _ _ G1 S)). exact Hev.
+  - intros rho v S Hev. apply C1; [exact S|]. rewrite <- (Hv rho S). exact Hev.
+Qed.
+Lemma sub_nth {A} (l : list A) d idx : (forall i, In i idx -> (i < List.length l)%nat) -> incl (map (fun i => nth i l d) idx) l.
+Proof. intros H x Hx. apply in_map_iff in Hx as [i [<- Hi]]. apply nth_In. apply H. exact Hi. Qed.
+Lemma map_nth_map {A B} (f : A -> B) (l : list A) d d' idx : (forall i, In i idx -> (i < List.length l)%nat) ->
+  map (fun i => nth i (map f l) d') idx = map f (map (fun i => nth i l d) idx).
+Proof.
+  intros H. rewrite map_map. apply map_ext_in. intros i Hi. rewrite (nth_indep _ d' (f d)) by (rewrite map_length; apply H; exact Hi). apply map_nth.
+Qed.
+Lemma evlist_map_nth sigma l vs idx : evlist sigma false l = Some vs -> (forall i, In i idx -> (i < List.length l)%nat) ->
+  evlist sigma false (map (fun i => nth i l (Num NaN)) idx) = Some (map (fun i => nth i vs 0) idx).
+Proof.
+  intros E H. induction idx as [|i idx IH]; [reflexivity|]. cbn [map evlist].
+  pose proof (evlist_nth sigma l vs i E (H i (or_introl eq_refl))) as Ei. unfold ev in Ei. rewrite Ei, IH by (intros j Hj; apply H; right; exact Hj). reflexivity.
+Qed.
+Lemma fold_max_eq M w ws : (forall x, In x (w :: ws) -> x <= M) -> In M (w :: ws) -> fold_left Rmax ws w = M.
+Proof. intros Hle Hin. apply Rle_antisym; [apply Hle; apply fold_max_in|apply fold_max_ge; exact Hin]. Qed.
+Lemma fold_min_eq M w ws : (forall x, In x (w :: ws) -> M <= x) -> In M (w :: ws) -> fold_left Rmin ws w = M.
+Proof. intros Hle Hin. apply Rle_antisym; [apply fold_min_le; exact Hin|apply Hle; apply fold_min_in]. Qed.
+
+(* the dominated-operand pruning keeps the value of the extreme, at every point of the state *)
+Lemma prune_box l s sigma vs : INV s -> forallb okexp l = true -> incl (flat_map xvars l) (keys s) -> st_sat s sigma ->
+  evlist sigma false l = Some vs ->
+  forall i, (i < List.length (map (bounds_of (s_an s)) l))%nat -> in_b (nth i (map (bounds_of (s_an s)) l) b_unbounded) (nth i vs 0).
+Proof.
+  intros I Ok Ix [_ [_ D]] El i Hi. rewrite map_length in Hi.
+  rewrite (nth_indep _ b_unbounded (bounds_of (s_an s) (Num NaN))) by (rewrite map_length; exact Hi). rewrite map_nth.
+  assert (He : In (nth i l (Num NaN)) l) by (apply nth_In; exact Hi).
+  apply (bounds_of_on (s_an s) sigma); [exact (proj1 (forallb_forall _ _) Ok _ He)| |exact (evlist_nth sigma l vs i El Hi)].
+  intros k Hk. apply (inv_box s I sigma D). apply Ix. apply in_flat_map. eexists. split; [exact He|exact Hk].
+Qed.
+Lemma prune_value_max l s : INV s -> forallb okexp l = true -> incl (flat_map xvars l) (keys s) -> Forall tot l ->
+  let rexps := map (fun i => nth i l (Num NaN)) (retained_indices KMax (map (bounds_of (s_an s)) l)) in
+  forall sigma, st_sat s sigma -> ev sigma (Max l) = ev sigma (Max rexps).
+Proof.
+  intros I Ok Ix Tl rexps sigma S.
+  destruct (evlist_total sigma false l) as [vs [El Lv]]; [apply Forall_forall; intros e He; exact (proj1 (Forall_forall _ _) Tl e He sigma)|].
+  set (obs := map (bounds_of (s_an s)) l) in *. assert (Lo : List.length obs = List.length l) by (unfold obs; apply map_length).
+  assert (Hlt : forall i, In i (retained_indices KMax obs) -> (i < List.length l)%nat) by (intros i Hi; apply retained_lt in Hi; lia).
+  unfold ev. rewrite !evg_Max, El. unfold rexps. rewrite (evlist_map_nth sigma l vs _ El Hlt).
+  destruct vs as [|v0 vs']; [destruct l; [|discriminate]; cbn; reflexivity|]. cbn [fold_max]. set (Mx := fold_left Rmax vs' v0).
+  assert (Hmax : forall i, (i < List.length obs)%nat -> nth i (v0 :: vs') 0 <= Mx) by (intros i Hi; apply fold_max_ge; apply nth_In; lia).
+  destruct (prune_max obs (v0 :: vs') Mx (prune_box l s sigma _ I Ok Ix S El) Hmax) as [r [Hr Er]].
+  { destruct (In_nth _ _ 0 (fold_max_in vs' v0)) as [i [Hi Ei]]. exists i. split; [lia|exact Ei]. }
+  destruct (retained_indices KMax obs) as [|i0 idx] eqn:Eret; [destruct Hr|]. cbn [map fold_max]. f_equal. symmetry. apply fold_max_eq.
+  - intros x0 Hx. change (nth i0 (v0 :: vs') 0 :: map (fun i => nth i (v0 :: vs') 0) idx) with (map (fun i => nth i (v0 :: vs') 0) (i0 :: idx)) in Hx.
+    apply in_map_iff in Hx as [i [<- Hi]]. apply Hmax. rewrite Lo. apply Hlt. exact Hi.
+  - change (nth i0 (v0 :: vs') 0 :: map (fun i => nth i (v0 :: vs') 0) idx) with (map (fun i => nth i (v0 :: vs') 0) (i0 :: idx)).
+    apply in_map_iff. exists r. split; [exact Er|exact Hr].
+Qed.
+Lemma prune_value_min l s : INV s -> forallb okexp l = true -> incl (flat_map xvars l) (keys s) -> Forall tot l ->
+  let rexps := map (fun i => nth i l (Num NaN)) (retained_indices KMin (map (bounds_of (s_an s)) l)) in
+  forall sigma, st_sat s sigma -> ev sigma (Min l) = ev sigma (Min rexps).
+Proof.
+  intros I Ok Ix Tl rexps sigma S.
+  destruct (evlist_total sigma false l) as [vs [El Lv]]; [apply Forall_forall; intros e He; exact (proj1 (Forall_forall _ _) Tl e He sigma)|].
+  set (obs := map (bounds_of (s_an s)) l) in *. assert (Lo : List.length obs = List.length l) by (unfold obs; apply map_length).
+  assert (Hlt : forall i, In i (retained_indices KMin obs) -> (i < List.length l)%nat) by (intros i Hi; apply retained_lt in Hi; lia).
+  unfold ev. rewrite !evg_Min, El. unfold rexps. rewrite (evlist_map_nth sigma l vs _ El Hlt).
+  destruct vs as [|v0 vs']; [destruct l; [|discriminate]; cbn; reflexivity|]. cbn [fold_min]. set (Mn := fold_left Rmin vs' v0).
+  assert (Hmin : forall i, (i < List.length obs)%nat -> Mn <= nth i (v0 :: vs') 0) by (intros i Hi; apply fold_min_le; apply nth_In; lia).
+  destruct (prune_min obs (v0 :: vs') Mn (prune_box l s sigma _ I Ok Ix S El) Hmin) as [r [Hr Er]].
+  { destruct (In_nth _ _ 0 (fold_min_in vs' v0)) as [i [Hi Ei]]. exists i. split; [lia|exact Ei]. }
+  destruct (retained_indices KMin obs) as [|i0 idx] eqn:Eret; [destruct Hr|]. cbn [map fold_min]. f_equal. symmetry. apply fold_min_eq.
+  - intros x0 Hx. change (nth i0 (v0 :: vs') 0 :: map (fun i => nth i (v0 :: vs') 0) idx) with (map (fun i => nth i (v0 :: vs') 0) (i0 :: idx)) in Hx.
+    apply in_map_iff in Hx as [i [<- Hi]]. apply Hmin. rewrite Lo. apply Hlt. exact Hi.
+  - change (nth i0 (v0 :: vs') 0 :: map (fun i => nth i (v0 :: vs') 0) idx) with (map (fun i => nth i (v0 :: vs') 0) (i0 :: idx)).
+    apply in_map_iff. exists r. split; [exact Er|exact Hr].
+Qed.
+
 Section Extreme.
   Variable n : nat.
-  Hypothesis IHn : forall e r s c s', okexp e = true -> noprune (s_an s) e = true -> INV s -> incl (xvars e) (keys s) -> tot e ->
+  Hypothesis IHn : forall e r s c s', okexp e = true -> INV s -> incl (xvars e) (keys s) -> tot e ->
     lin n e r s = inr (c, s') -> lin_spec e r s c s'.
 
   Lemma mapMM_ok oreq : forall es s ops s',
-    forallb okexp es = true -> forallb (noprune (s_an s)) es = true -> INV s -> incl (flat_map xvars es) (keys s) -> Forall tot es ->
+    forallb okexp es = true -> INV s -> incl (flat_map xvars es) (keys s) -> Forall tot es ->
     mapMM (fun e => bind (lin n e oreq) (fun v => ret (context_to_exp v))) es s = inr (ops, s') ->
     exists cs, ops = map context_to_exp cs /\ List.length cs = List.length es /\ INV s' /\ grows s s' /\ Forall (ctx_ok (keys s')) cs /\ Forall ctx_fin cs /\
       (forall sigma vs, st_sat s' sigma -> evlist sigma false es = Some vs -> Forall2 (fun c v => rel oreq (ctx_val sigma c) v) cs vs) /\
       (forall rho vs, st_sat s rho -> evlist rho false es = Some vs ->
          exists sigma, (forall k, In k (keys s) -> sigma k = rho k) /\ st_sat s' sigma /\ Forall2 (fun c v => ctx_val sigma c = v) cs vs).
   Proof.
-    induction es as [|x xs IH]; intros s ops s' O N I Ix T H.
+    induction es as [|x xs IH]; intros s ops s' O I Ix T H.
     - inversion H; subst. exists []. split; [reflexivity|]. split; [reflexivity|]. split; [exact I|]. split; [apply grows_refl|]. split; [constructor|]. split; [constructor|]. split.
       + intros sigma vs _ E. inversion E; subst. constructor.
       + intros rho vs S E. inversion E; subst. exists rho. split; [reflexivity|]. split; [exact S|constructor].
     - cbn [mapMM] in H. unfold bind at 1 2 in H. destruct (lin n x oreq s) as [er|[c1 s1]] eqn:E1; [discriminate|]. unfold ret at 1 in H.
       unfold bind at 1 in H. destruct (mapMM _ xs s1) as [er|[ys s2]] eqn:E2; [discriminate|]. inversion H; subst ops s'; clear H.
-      cbn [forallb] in O, N. apply andb_true_iff in O as [Ox Oxs]. apply andb_true_iff in N as [Nx Nxs]. inversion T as [|? ? Tx Txs]; subst.
+      cbn [forallb] in O. apply andb_true_iff in O as [Ox Oxs]. inversion T as [|? ? Tx Txs]; subst.
       cbn [flat_map] in Ix.
       assert (Ixx : incl (xvars x) (keys s)) by (intros k Hk; apply Ix; apply in_or_app; left; exact Hk).
       assert (Ixs : incl (flat_map xvars xs) (keys s)) by (intros k Hk; apply Ix; apply in_or_app; right; exact Hk).
-      destruct (IHn _ _ _ _ _ Ox Nx I Ixx Tx E1) as [I1 [G1 [K1 [F1 [S1 C1]]]]].
-      assert (Nxs1 : forallb (noprune (s_an s1)) xs = true).
-      { rewrite <- Nxs. apply forallb_ext_in. apply Forall_forall. intros e He. apply noprune_grows; [exact G1|].
-        intros k Hk. apply Ixs. apply in_flat_map. exists e. split; assumption. }
-      destruct (IH s1 ys s2 Oxs Nxs1 I1 (fun k Hk => grows_keys _ _ G1 k (Ixs k Hk)) Txs E2) as [cs [Eo [Ln [I2 [G2 [K2 [F2 [S2 C2]]]]]]]].
+      destruct (IHn _ _ _ _ _ Ox I Ixx Tx E1) as [I1 [G1 [K1 [F1 [S1 C1]]]]].
+      destruct (IH s1 ys s2 Oxs I1 (fun k Hk => grows_keys _ _ G1 k (Ixs k Hk)) Txs E2) as [cs [Eo [Ln [I2 [G2 [K2 [F2 [S2 C2]]]]]]]].
       exists (c1 :: cs). split; [cbn [map]; rewrite Eo; reflexivity|]. split; [cbn [List.length]; rewrite Ln; reflexivity|]. split; [exact I2|]. split; [eapply grows_trans; eassumption|].
       split; [constructor; [eapply ctx_ok_mono; [apply grows_keys; exact G2|exact K1]|exact K2]|]. split; [constructor; assumption|]. split.
       + intros sigma vs S E. cbn [evlist] in E. destruct (evg sigma false x) as [vx|] eqn:Ex; [|discriminate].
@@ -1139,7 +1157,6 @@ Section Extreme.
     Let s1 := decl (set_cnt s0 cnt) var T.
     Hypothesis Oe : forallb okexp exps = true.
     Hypothesis Ne : exps <> [].
-    Hypothesis Np : forallb (noprune (s_an s0)) exps = true.
     Hypothesis I0 : INV s0.
     Hypothesis Ix : incl (flat_map xvars exps) (keys s0).
     Hypothesis Tt : Forall tot exps.
@@ -1150,22 +1167,20 @@ Section Extreme.
       intros [_ [_ D]] Hv. apply (bounds_of_on (s_an s0) rho (Max exps) v); [|intros k Hk; rewrite xvars_Max in Hk; apply (inv_box s0 I0 rho D); apply Ix; exact Hk|exact Hv].
       rewrite okexp_Max. destruct exps; [contradiction|exact Oe].
     Qed.
-    Lemma max_setup : INV s1 /\ grows s0 s1 /\ In var (keys s1) /\ forallb (noprune (s_an s1)) exps = true /\ incl (flat_map xvars exps) (keys s1).
+    Lemma max_setup : INV s1 /\ grows s0 s1 /\ In var (keys s1) /\ incl (flat_map xvars exps) (keys s1).
     Proof.
       assert (I1 : INV s1) by (apply INV_decl; [apply INV_set_cnt; exact I0|exact Mv]).
       assert (G : grows s0 s1) by (eapply grows_trans; [apply grows_set_cnt|apply grows_decl; exact Mv]).
-      split; [exact I1|]. split; [exact G|]. split; [unfold s1; rewrite keys_decl; apply in_or_app; right; left; reflexivity|]. split.
-      - rewrite <- Np. apply forallb_ext_in. apply Forall_forall. intros e He. apply noprune_grows; [exact G|].
-        intros k Hk. apply Ix. apply in_flat_map. exists e. split; assumption.
-      - intros k Hk. apply (grows_keys _ _ G). apply Ix. exact Hk.
+      split; [exact I1|]. split; [exact G|]. split; [unfold s1; rewrite keys_decl; apply in_or_app; right; left; reflexivity|].
+      intros k Hk. apply (grows_keys _ _ G). apply Ix. exact Hk.
     Qed.
 
     Lemma max_lower ops s2 :
       mapMM (fun e => bind (lin n e PreferLower) (fun v => ret (context_to_exp v))) exps s1 = inr (ops, s2) ->
       lin_spec (Max exps) PreferLower s0 (l_from_var var (Fin 1%Q)) (addcs s2 (map (fun o => mk_c (Var var) Ge o) ops)).
     Proof.
-      intros HM. destruct max_setup as [I1 [G01 [Hv1 [Np1 Ix1]]]].
-      destruct (mapMM_ok PreferLower exps s1 ops s2 Oe Np1 I1 Ix1 Tt HM) as [cs [Eo [_ [I2 [G12 [K2 [F2 [S2 C2]]]]]]]].
+      intros HM. destruct max_setup as [I1 [G01 [Hv1 Ix1]]].
+      destruct (mapMM_ok PreferLower exps s1 ops s2 Oe I1 Ix1 Tt HM) as [cs [Eo [_ [I2 [G12 [K2 [F2 [S2 C2]]]]]]]].
       assert (Hv2 : In var (keys s2)) by (apply (grows_keys _ _ G12); exact Hv1).
       set (rows := map (fun o => mk_c (Var var) Ge o) ops). set (s3 := addcs s2 rows).
       assert (Gr : Forall (cgood (keys s2)) rows) by (unfold rows; rewrite Eo; apply ops_cgood; assumption).
@@ -1212,8 +1227,8 @@ Section Extreme.
       lin_spec (Max exps) r s0 (l_from_var var (Fin 1%Q))
         (addc (addcs s3 (flat_map (fun t => [fmax t; gmax t]) (combine (combine ops obs) sels))) (mk_c (sum_exps sels) Eq (Num (Fin 1%Q)))).
     Proof.
-      intros HM HD sels. destruct max_setup as [I1 [G01 [Hv1 [Np1 Ix1]]]].
-      destruct (mapMM_ok Exact exps s1 ops s2 Oe Np1 I1 Ix1 Tt HM) as [cs [Eo [Lc [I2 [G12 [K2 [F2 [S2 C2]]]]]]]].
+      intros HM HD sels. destruct max_setup as [I1 [G01 [Hv1 Ix1]]].
+      destruct (mapMM_ok Exact exps s1 ops s2 Oe I1 Ix1 Tt HM) as [cs [Eo [Lc [I2 [G12 [K2 [F2 [S2 C2]]]]]]]].
       set (m := List.length exps) in *.
       assert (Lo : List.length ops = m) by (rewrite Eo, map_length; exact Lc).
       set (ns := map sel (seq O (List.length ops))).
@@ -1351,7 +1366,6 @@ Section Extreme.
     Let s1 := decl (set_cnt s0 cnt) var T.
     Hypothesis Oe : forallb okexp exps = true.
     Hypothesis Ne : exps <> [].
-    Hypothesis Np : forallb (noprune (s_an s0)) exps = true.
     Hypothesis I0 : INV s0.
     Hypothesis Ix : incl (flat_map xvars exps) (keys s0).
     Hypothesis Tt : Forall tot exps.
@@ -1362,22 +1376,20 @@ Section Extreme.
       intros [_ [_ D]] Hv. apply (bounds_of_on (s_an s0) rho (Min exps) v); [|intros k Hk; rewrite xvars_Min in Hk; apply (inv_box s0 I0 rho D); apply Ix; exact Hk|exact Hv].
       rewrite okexp_Min. destruct exps; [contradiction|exact Oe].
     Qed.
-    Lemma min_setup : INV s1 /\ grows s0 s1 /\ In var (keys s1) /\ forallb (noprune (s_an s1)) exps = true /\ incl (flat_map xvars exps) (keys s1).
+    Lemma min_setup : INV s1 /\ grows s0 s1 /\ In var (keys s1) /\ incl (flat_map xvars exps) (keys s1).
     Proof.
       assert (I1 : INV s1) by (apply INV_decl; [apply INV_set_cnt; exact I0|exact Mv]).
       assert (G : grows s0 s1) by (eapply grows_trans; [apply grows_set_cnt|apply grows_decl; exact Mv]).
-      split; [exact I1|]. split; [exact G|]. split; [unfold s1; rewrite keys_decl; apply in_or_app; right; left; reflexivity|]. split.
-      - rewrite <- Np. apply forallb_ext_in. apply Forall_forall. intros e He. apply noprune_grows; [exact G|].
-        intros k Hk. apply Ix. apply in_flat_map. exists e. split; assumption.
-      - intros k Hk. apply (grows_keys _ _ G). apply Ix. exact Hk.
+      split; [exact I1|]. split; [exact G|]. split; [unfold s1; rewrite keys_decl; apply in_or_app; right; left; reflexivity|].
+      intros k Hk. apply (grows_keys _ _ G). apply Ix. exact Hk.
     Qed.
 
     Lemma min_upper ops s2 :
       mapMM (fun e => bind (lin n e PreferHigher) (fun v => ret (context_to_exp v))) exps s1 = inr (ops, s2) ->
       lin_spec (Min exps) PreferHigher s0 (l_from_var var (Fin 1%Q)) (addcs s2 (map (fun o => mk_c (Var var) Le o) ops)).
     Proof.
-      intros HM. destruct min_setup as [I1 [G01 [Hv1 [Np1 Ix1]]]].
-      destruct (mapMM_ok PreferHigher exps s1 ops s2 Oe Np1 I1 Ix1 Tt HM) as [cs [Eo [_ [I2 [G12 [K2 [F2 [S2 C2]]]]]]]].
+      intros HM. destruct min_setup as [I1 [G01 [Hv1 Ix1]]].
+      destruct (mapMM_ok PreferHigher exps s1 ops s2 Oe I1 Ix1 Tt HM) as [cs [Eo [_ [I2 [G12 [K2 [F2 [S2 C2]]]]]]]].
       assert (Hv2 : In var (keys s2)) by (apply (grows_keys _ _ G12); exact Hv1).
       set (rows := map (fun o => mk_c (Var var) Le o) ops). set (s3 := addcs s2 rows).
       assert (Gr : Forall (cgood (keys s2)) rows) by (unfold rows; rewrite Eo; apply ops_cgood; assumption).
@@ -1424,8 +1436,8 @@ Section Extreme.
       lin_spec (Min exps) r s0 (l_from_var var (Fin 1%Q))
         (addc (addcs s3 (flat_map (fun t => [fmin t; gmin t]) (combine (combine ops obs) sels))) (mk_c (sum_exps sels) Eq (Num (Fin 1%Q)))).
     Proof.
-      intros HM HD sels. destruct min_setup as [I1 [G01 [Hv1 [Np1 Ix1]]]].
-      destruct (mapMM_ok Exact exps s1 ops s2 Oe Np1 I1 Ix1 Tt HM) as [cs [Eo [Lc [I2 [G12 [K2 [F2 [S2 C2]]]]]]]].
+      intros HM HD sels. destruct min_setup as [I1 [G01 [Hv1 Ix1]]].
+      destruct (mapMM_ok Exact exps s1 ops s2 Oe I1 Ix1 Tt HM) as [cs [Eo [Lc [I2 [G12 [K2 [F2 [S2 C2]]]]]]]].
       set (m := List.length exps) in *.
       assert (Lo : List.length ops = m) by (rewrite Eo, map_length; exact Lc).
       set (ns := map sel (seq O (List.length ops))).
@@ -1572,32 +1584,46 @@ Section Extreme.
     destruct (hi (bounds_of an e)); try discriminate. eauto.
   Qed.
 
-  Lemma extreme_ok k l r s c s' : okexp (ext_exp k l) = true -> noprune (s_an s) (ext_exp k l) = true -> INV s ->
+  Lemma extreme_ok k l r s c s' : okexp (ext_exp k l) = true -> INV s ->
     incl (xvars (ext_exp k l)) (keys s) -> tot (ext_exp k l) ->
     linearize_extreme (lin n) k l r s = inr (c, s') -> lin_spec (ext_exp k l) r s c s'.
   Proof.
-    intros Ok Np I Ix Tt H. destruct k; cbn [ext_exp] in *.
+    intros Ok I Ix Tt H. destruct k; cbn [ext_exp] in *.
     - (* min *)
-      rewrite okexp_Min in Ok. rewrite noprune_Min in Np. apply andb_true_iff in Np as [Npl Nret]. apply list_nat_eqb_eq in Nret.
-      rewrite xvars_Min in Ix. pose proof (tot_list_min _ Tt) as Tl.
+      rewrite okexp_Min in Ok. rewrite xvars_Min in Ix. pose proof (tot_list_min _ Tt) as Tl.
       destruct l as [|x l']; [discriminate|].
-      unfold linearize_extreme in H. unfold bind at 1, get_st at 1 in H. cbv zeta in H. rewrite Nret in H.
-      destruct l' as [|y l''].
-      + (* a single operand *)
-        cbn [List.length seq nth] in H. cbn [forallb] in Ok, Npl. rewrite andb_true_r in Ok, Npl. cbn [flat_map] in Ix. rewrite app_nil_r in Ix.
-        inversion Tl as [|? ? Tx _]; subst.
-        pose proof (IHn _ _ _ _ _ Ok Npl I Ix Tx H) as Sp.
-        apply (spec_un (Min [x]) x r r (fun z => z) (fun z => z) s c s' Ok Ix); [| | | |exact Sp].
-        * intros sigma v _ Hv. destruct (ev_min_inv _ _ _ Hv) as [v0 [vs [El ->]]]. cbn [evlist] in El.
-          destruct (evg sigma false x) as [vx|] eqn:Ex; [|discriminate]. inversion El; subst. exists v0. split; [exact Ex|reflexivity].
+      unfold linearize_extreme in H. unfold bind at 1, get_st at 1 in H. cbv zeta in H.
+      set (l0 := x :: l') in *.
+      pose proof (prune_value_min l0 s I Ok Ix Tl) as Hval. cbv zeta in Hval.
+      assert (Hlt : forall i, In i (retained_indices KMin (map (bounds_of (s_an s)) l0)) -> (i < List.length l0)%nat)
+        by (intros i Hi; apply retained_lt in Hi; rewrite map_length in Hi; exact Hi).
+      remember (retained_indices KMin (map (bounds_of (s_an s)) l0)) as ret eqn:Er.
+      destruct ret as [|i [|i2 ret']].
+      + discriminate.
+      + (* a single operand survives *)
+        assert (Hi : (i < List.length l0)%nat) by (apply Hlt; left; reflexivity).
+        assert (Hin : In (nth i l0 (Num NaN)) l0) by (apply nth_In; exact Hi).
+        pose proof (proj1 (forallb_forall _ _) Ok _ Hin) as Oi. pose proof (proj1 (Forall_forall _ _) Tl _ Hin) as Ti.
+        assert (Ixi : incl (xvars (nth i l0 (Num NaN))) (keys s)) by (intros k Hk; apply Ix; apply in_flat_map; eexists; split; [exact Hin|exact Hk]).
+        pose proof (IHn _ _ _ _ _ Oi I Ixi Ti H) as Sp.
+        apply (spec_un (Min l0) (nth i l0 (Num NaN)) r r (fun z => z) (fun z => z) s c s' Oi Ixi); [| | | |exact Sp].
+        * intros sigma v S Hv. rewrite (Hval sigma S) in Hv. cbn [map] in Hv. destruct (ev_min_inv _ _ _ Hv) as [v0 [vs [El ->]]]. cbn [evlist] in El.
+          destruct (evg sigma false (nth i l0 (Num NaN))) as [vx|] eqn:Ex; [|discriminate]. inversion El; subst. exists v0. split; [exact Ex|reflexivity].
         * intros A z Hz. exact Hz.
         * intros z Fz. split; [exact Fz|reflexivity].
         * intros z vz Hr. exact Hr.
-      + cbn [List.length seq] in H. change (0%nat :: 1%nat :: seq 2 (List.length l'')) with (seq 0 (List.length (x :: y :: l''))) in H.
-        set (exps := x :: y :: l'') in *.
-        rewrite (map_nth_seq exps (Num NaN)) in H.
-        rewrite (map_nth_seq_len (map (bounds_of (s_an s)) exps) b_unbounded (List.length exps) (eq_sym (map_length _ _))) in H.
-        assert (Ne : exps <> []) by discriminate.
+      + rewrite Er in H, Hval.
+        assert (Ne0 : retained_indices KMin (map (bounds_of (s_an s)) l0) <> []) by (rewrite <- Er; discriminate).
+        rewrite Er in Hlt. clear Er i i2 ret'.
+        rewrite (map_nth_map (bounds_of (s_an s)) l0 (Num NaN) b_unbounded _ Hlt) in H.
+        set (exps := map (fun i => nth i l0 (Num NaN)) (retained_indices KMin (map (bounds_of (s_an s)) l0))) in *.
+        assert (Sub : incl exps l0) by (apply sub_nth; exact Hlt).
+        assert (Ne : exps <> []) by (unfold exps; intros E; apply map_eq_nil in E; contradiction).
+        assert (Ok' : forallb okexp exps = true) by (apply forallb_forall; intros e He; exact (proj1 (forallb_forall _ _) Ok e (Sub e He))).
+        assert (Ix' : incl (flat_map xvars exps) (keys s)).
+        { intros k Hk. apply in_flat_map in Hk as [e [He Hk]]. apply Ix. apply in_flat_map. exists e. split; [exact (Sub e He)|exact Hk]. }
+        assert (Tl' : Forall tot exps) by (apply Forall_forall; intros e He; exact (proj1 (Forall_forall _ _) Tl e (Sub e He))).
+        apply (lin_spec_equiv (Min l0) (Min exps) r s c s' Hval).
         destruct r.
         * (* PreferLower: exact *)
           cbn [negb andb] in H.
@@ -1615,7 +1641,7 @@ Section Extreme.
                                    (mk_c (Var var) Ge (sub_exp (fst (fst t)) (mul_exp (Num (xq_sub (hi (snd (fst t))) (lo (bounds_of (s_an s) (Min exps))))) (sub_exp (Num (Fin 1%Q)) (snd t))))))) in H
             by (intros [[o b0] sl] st; reflexivity).
           unfold bind at 1, add_constraint at 1, ret in H. injection H as <- <-. rewrite fold_addc2.
-          exact (min_exact exps s _ var Ok Ne Npl I Ix Tl Mv _ U Hhi (forallb_finite_hi _ _ Flo) PreferLower ops s2 u3 s3 HM HD).
+          exact (min_exact exps s _ var Ok' Ne I Ix' Tl' Mv _ U Hhi (forallb_finite_hi _ _ Flo) PreferLower ops s2 u3 s3 HM HD).
         * (* PreferHigher: one-sided *)
           cbn [negb andb] in H. unfold bind at 1, next_id at 1 in H. cbv beta iota in H.
           match type of H with context [declare_variable ?v ?t] => set (var := v) in *; set (T := t) in * end.
@@ -1624,7 +1650,7 @@ Section Extreme.
           match type of H with context [mapMM ?f exps ?st] => destruct (mapMM f exps st) as [er|[ops s2]] eqn:HM; [discriminate|] end.
           unfold bind at 1 in H. rewrite (iterM_fold _ (fun o st => addc st (mk_c (Var var) Le o))) in H by (intros; reflexivity).
           unfold ret in H. injection H as <- <-. rewrite fold_addc1.
-          exact (min_upper exps s _ var Ok Ne Npl I Ix Tl Mv ops s2 HM).
+          exact (min_upper exps s _ var Ok' Ne I Ix' Tl' Mv ops s2 HM).
         * (* Exact *)
           cbn [negb andb] in H.
           match type of H with context [if negb ?b then _ else _] => destruct b eqn:HF; cbn [negb] in H; [|discriminate] end.
@@ -1641,28 +1667,42 @@ Section Extreme.
                                    (mk_c (Var var) Ge (sub_exp (fst (fst t)) (mul_exp (Num (xq_sub (hi (snd (fst t))) (lo (bounds_of (s_an s) (Min exps))))) (sub_exp (Num (Fin 1%Q)) (snd t))))))) in H
             by (intros [[o b0] sl] st; reflexivity).
           unfold bind at 1, add_constraint at 1, ret in H. injection H as <- <-. rewrite fold_addc2.
-          exact (min_exact exps s _ var Ok Ne Npl I Ix Tl Mv _ U Hhi (forallb_finite_hi _ _ Flo) Exact ops s2 u3 s3 HM HD).
+          exact (min_exact exps s _ var Ok' Ne I Ix' Tl' Mv _ U Hhi (forallb_finite_hi _ _ Flo) Exact ops s2 u3 s3 HM HD).
     - (* max *)
-      rewrite okexp_Max in Ok. rewrite noprune_Max in Np. apply andb_true_iff in Np as [Npl Nret]. apply list_nat_eqb_eq in Nret.
-      rewrite xvars_Max in Ix. pose proof (tot_list_max _ Tt) as Tl.
+      rewrite okexp_Max in Ok. rewrite xvars_Max in Ix. pose proof (tot_list_max _ Tt) as Tl.
       destruct l as [|x l']; [discriminate|].
-      unfold linearize_extreme in H. unfold bind at 1, get_st at 1 in H. cbv zeta in H. rewrite Nret in H.
-      destruct l' as [|y l''].
-      + (* a single operand *)
-        cbn [List.length seq nth] in H. cbn [forallb] in Ok, Npl. rewrite andb_true_r in Ok, Npl. cbn [flat_map] in Ix. rewrite app_nil_r in Ix.
-        inversion Tl as [|? ? Tx _]; subst.
-        pose proof (IHn _ _ _ _ _ Ok Npl I Ix Tx H) as Sp.
-        apply (spec_un (Max [x]) x r r (fun z => z) (fun z => z) s c s' Ok Ix); [| | | |exact Sp].
-        * intros sigma v _ Hv. destruct (ev_max_inv _ _ _ Hv) as [v0 [vs [El ->]]]. cbn [evlist] in El.
-          destruct (evg sigma false x) as [vx|] eqn:Ex; [|discriminate]. inversion El; subst. exists v0. split; [exact Ex|reflexivity].
+      unfold linearize_extreme in H. unfold bind at 1, get_st at 1 in H. cbv zeta in H.
+      set (l0 := x :: l') in *.
+      pose proof (prune_value_max l0 s I Ok Ix Tl) as Hval. cbv zeta in Hval.
+      assert (Hlt : forall i, In i (retained_indices KMax (map (bounds_of (s_an s)) l0)) -> (i < List.length l0)%nat)
+        by (intros i Hi; apply retained_lt in Hi; rewrite map_length in Hi; exact Hi).
+      remember (retained_indices KMax (map (bounds_of (s_an s)) l0)) as ret eqn:Er.
+      destruct ret as [|i [|i2 ret']].
+      + discriminate.
+      + (* a single operand survives *)
+        assert (Hi : (i < List.length l0)%nat) by (apply Hlt; left; reflexivity).
+        assert (Hin : In (nth i l0 (Num NaN)) l0) by (apply nth_In; exact Hi).
+        pose proof (proj1 (forallb_forall _ _) Ok _ Hin) as Oi. pose proof (proj1 (Forall_forall _ _) Tl _ Hin) as Ti.
+        assert (Ixi : incl (xvars (nth i l0 (Num NaN))) (keys s)) by (intros k Hk; apply Ix; apply in_flat_map; eexists; split; [exact Hin|exact Hk]).
+        pose proof (IHn _ _ _ _ _ Oi I Ixi Ti H) as Sp.
+        apply (spec_un (Max l0) (nth i l0 (Num NaN)) r r (fun z => z) (fun z => z) s c s' Oi Ixi); [| | | |exact Sp].
+        * intros sigma v S Hv. rewrite (Hval sigma S) in Hv. cbn [map] in Hv. destruct (ev_max_inv _ _ _ Hv) as [v0 [vs [El ->]]]. cbn [evlist] in El.
+          destruct (evg sigma false (nth i l0 (Num NaN))) as [vx|] eqn:Ex; [|discriminate]. inversion El; subst. exists v0. split; [exact Ex|reflexivity].
         * intros A z Hz. exact Hz.
         * intros z Fz. split; [exact Fz|reflexivity].
         * intros z vz Hr. exact Hr.
-      + cbn [List.length seq] in H. change (0%nat :: 1%nat :: seq 2 (List.length l'')) with (seq 0 (List.length (x :: y :: l''))) in H.
-        set (exps := x :: y :: l'') in *.
-        rewrite (map_nth_seq exps (Num NaN)) in H.
-        rewrite (map_nth_seq_len (map (bounds_of (s_an s)) exps) b_unbounded (List.length exps) (eq_sym (map_length _ _))) in H.
-        assert (Ne : exps <> []) by discriminate.
+      + rewrite Er in H, Hval.
+        assert (Ne0 : retained_indices KMax (map (bounds_of (s_an s)) l0) <> []) by (rewrite <- Er; discriminate).
+        rewrite Er in Hlt. clear Er i i2 ret'.
+        rewrite (map_nth_map (bounds_of (s_an s)) l0 (Num NaN) b_unbounded _ Hlt) in H.
+        set (exps := map (fun i => nth i l0 (Num NaN)) (retained_indices KMax (map (bounds_of (s_an s)) l0))) in *.
+        assert (Sub : incl exps l0) by (apply sub_nth; exact Hlt).
+        assert (Ne : exps <> []) by (unfold exps; intros E; apply map_eq_nil in E; contradiction).
+        assert (Ok' : forallb okexp exps = true) by (apply forallb_forall; intros e He; exact (proj1 (forallb_forall _ _) Ok e (Sub e He))).
+        assert (Ix' : incl (flat_map xvars exps) (keys s)).
+        { intros k Hk. apply in_flat_map in Hk as [e [He Hk]]. apply Ix. apply in_flat_map. exists e. split; [exact (Sub e He)|exact Hk]. }
+        assert (Tl' : Forall tot exps) by (apply Forall_forall; intros e He; exact (proj1 (Forall_forall _ _) Tl e (Sub e He))).
+        apply (lin_spec_equiv (Max l0) (Max exps) r s c s' Hval).
         destruct r.
         * (* PreferLower: one-sided *)
           cbn [negb andb] in H. unfold bind at 1, next_id at 1 in H. cbv beta iota in H.
@@ -1672,7 +1712,7 @@ Section Extreme.
           match type of H with context [mapMM ?f exps ?st] => destruct (mapMM f exps st) as [er|[ops s2]] eqn:HM; [discriminate|] end.
           unfold bind at 1 in H. rewrite (iterM_fold _ (fun o st => addc st (mk_c (Var var) Ge o))) in H by (intros; reflexivity).
           unfold ret in H. injection H as <- <-. rewrite fold_addc1.
-          exact (max_lower exps s _ var Ok Ne Npl I Ix Tl Mv ops s2 HM).
+          exact (max_lower exps s _ var Ok' Ne I Ix' Tl' Mv ops s2 HM).
         * (* PreferHigher: exact *)
           cbn [negb andb] in H.
           match type of H with context [if negb ?b then _ else _] => destruct b eqn:HF; cbn [negb] in H; [|discriminate] end.
@@ -1689,7 +1729,7 @@ Section Extreme.
                                    (mk_c (Var var) Le (add_exp (fst (fst t)) (mul_exp (Num (xq_sub (hi (bounds_of (s_an s) (Max exps))) (lo (snd (fst t))))) (sub_exp (Num (Fin 1%Q)) (snd t))))))) in H
             by (intros [[o b0] sl] st; reflexivity).
           unfold bind at 1, add_constraint at 1, ret in H. injection H as <- <-. rewrite fold_addc2.
-          exact (max_exact exps s _ var Ok Ne Npl I Ix Tl Mv _ U Hhi (forallb_finite_lo _ _ Flo) PreferHigher ops s2 u3 s3 HM HD).
+          exact (max_exact exps s _ var Ok' Ne I Ix' Tl' Mv _ U Hhi (forallb_finite_lo _ _ Flo) PreferHigher ops s2 u3 s3 HM HD).
         * (* Exact *)
           cbn [negb andb] in H.
           match type of H with context [if negb ?b then _ else _] => destruct b eqn:HF; cbn [negb] in H; [|discriminate] end.
@@ -1706,14 +1746,14 @@ Section Extreme.
                                    (mk_c (Var var) Le (add_exp (fst (fst t)) (mul_exp (Num (xq_sub (hi (bounds_of (s_an s) (Max exps))) (lo (snd (fst t))))) (sub_exp (Num (Fin 1%Q)) (snd t))))))) in H
             by (intros [[o b0] sl] st; reflexivity).
           unfold bind at 1, add_constraint at 1, ret in H. injection H as <- <-. rewrite fold_addc2.
-          exact (max_exact exps s _ var Ok Ne Npl I Ix Tl Mv _ U Hhi (forallb_finite_lo _ _ Flo) Exact ops s2 u3 s3 HM HD).
+          exact (max_exact exps s _ var Ok' Ne I Ix' Tl' Mv _ U Hhi (forallb_finite_lo _ _ Flo) Exact ops s2 u3 s3 HM HD).
   Qed.
 End Extreme.
 
-Theorem lin_ok : forall n e r s c s', okexp e = true -> noprune (s_an s) e = true -> INV s -> incl (xvars e) (keys s) -> tot e ->
+Theorem lin_ok : forall n e r s c s', okexp e = true -> INV s -> incl (xvars e) (keys s) -> tot e ->
   lin n e r s = inr (c, s') -> lin_spec e r s c s'.
 Proof.
-  induction n as [|n IH]; intros e r s c s' Ok Np I Ix Tt H; [discriminate|].
+  induction n as [|n IH]; intros e r s c s' Ok I Ix Tt H; [discriminate|].
   cbn [lin] in H. destruct e; try discriminate; cbn [lin_step] in H.
   - (* Num *)
     inversion H; subst c s'; clear H. destruct (Tt (fun _ => 0)) as [v0 Hv0]. apply ev_Num_inv in Hv0 as [q [-> _]].
@@ -1724,7 +1764,7 @@ Proof.
     apply spec_leaf; [exact I|apply from_var_ok; apply Ix; left; reflexivity|exact (proj1 (from_var_one (fun _ => 0) s0))|].
     intros sigma v Hv. rewrite ev_var in Hv. inversion Hv; subst v. exact (proj2 (from_var_one sigma s0)).
   - (* Abs *)
-    cbn [okexp noprune xvars] in Ok, Np, Ix. pose proof (tot_abs _ Tt) as Tx.
+    cbn [okexp xvars] in Ok, Ix. pose proof (tot_abs _ Tt) as Tx.
     unfold bind at 1, get_st at 1 in H. cbv zeta in H.
     set (ib := bounds_of (s_an s) e) in *.
     assert (Bnd : forall sigma t, st_sat s sigma -> ev sigma e = Some t -> in_b ib t).
@@ -1732,7 +1772,7 @@ Proof.
       intros k Hk. apply (inv_box s I sigma D). apply Ix. exact Hk. }
     destruct (xq_geb (lo ib) (Fin 0%Q)) eqn:G1.
     { (* the argument is known to be non-negative *)
-      pose proof (IH _ _ _ _ _ Ok Np I Ix Tx H) as Sp.
+      pose proof (IH _ _ _ _ _ Ok I Ix Tx H) as Sp.
       apply (spec_un (Abs e) e r r (fun x => x) (fun x => x) s c s' Ok Ix); [| | | |exact Sp].
       - intros sigma v S Hv. destruct (ev_abs_inv _ _ _ Hv) as [t [Et ->]]. exists t. split; [exact Et|].
         destruct (Bnd sigma t S Et) as [B1 _]. apply Rabs_right. apply Rle_ge. exact (xq_geb_Fin0 _ _ G1 B1).
@@ -1743,7 +1783,7 @@ Proof.
     { (* the argument is known to be non-positive *)
       unfold bind in H. destruct (lin n e (req_reversed r) s) as [er|[lv s1]] eqn:E1; [discriminate|].
       inversion H; subst c s'; clear H.
-      pose proof (IH _ _ _ _ _ Ok Np I Ix Tx E1) as Sp.
+      pose proof (IH _ _ _ _ _ Ok I Ix Tx E1) as Sp.
       apply (spec_un (Abs e) e r (req_reversed r) (fun x => l_mul_by x (Fin (-1)%Q)) Ropp s lv s1 Ok Ix); [| | | |exact Sp].
       - intros sigma v S Hv. destruct (ev_abs_inv _ _ _ Hv) as [t [Et ->]]. exists t. split; [exact Et|].
         destruct (Bnd sigma t S Et) as [_ B2]. apply Rabs_left1. exact (xq_leb_Fin0 _ _ G2 B2).
@@ -1755,7 +1795,7 @@ Proof.
     destruct ((match r with PreferLower => false | _ => true end) && (negb (xq_is_finite (lo ib)) || negb (xq_is_finite (hi ib)))) eqn:NE;
       [discriminate|].
     unfold bind at 1 in H. destruct (lin n e Exact s) as [er|[inner_c s1]] eqn:E1; [discriminate|].
-    pose proof (IH _ _ _ _ _ Ok Np I Ix Tx E1) as Sp.
+    pose proof (IH _ _ _ _ _ Ok I Ix Tx E1) as Sp.
     cbv beta iota zeta delta [bind next_id declare_variable add_constraint ret] in H. cbn [s_dom s_queue s_rows s_cnt s_an] in H.
     match type of H with context [al_mem (s_dom s1) ?v] => set (vn := v) in *; destruct (al_mem (s_dom s1) vn) eqn:Mv; [destruct r; discriminate|] end.
     destruct r.
@@ -1774,10 +1814,10 @@ Proof.
       match type of H with context [al_mem ?d ?p] => set (pn := p) in *; destruct (al_mem d pn) eqn:Mp; [discriminate|] end.
       inversion H; subst c s'; clear H.
       exact (abs_exact e s s1 inner_c _ vn Ok I Ix Sp Mv pn ql qh Elo Ehi G1 G2 Mp Exact).
-  - (* Min *) exact (extreme_ok n IH KMin l r s c s' Ok Np I Ix Tt H).
-  - (* Max *) exact (extreme_ok n IH KMax l r s c s' Ok Np I Ix Tt H).
+  - (* Min *) exact (extreme_ok n IH KMin l r s c s' Ok I Ix Tt H).
+  - (* Max *) exact (extreme_ok n IH KMax l r s c s' Ok I Ix Tt H).
   - (* BinOp *)
-    cbn [okexp noprune] in Ok, Np. apply andb_true_iff in Np as [Np1 Np2].
+    cbn [okexp] in Ok.
     assert (O12 : okexp e1 = true /\ okexp e2 = true) by (destruct op; try discriminate; apply andb_true_iff in Ok; exact Ok).
     destruct O12 as [O1 O2]. destruct (tot_binop _ _ _ Tt) as [T1 T2]. cbn [xvars] in Ix.
     assert (Ix1 : incl (xvars e1) (keys s)) by (intros k Hk; apply Ix; apply in_or_app; left; exact Hk).
@@ -1786,9 +1826,8 @@ Proof.
     + (* Add *)
       unfold bind in H. destruct (lin n e1 r s) as [er|[la s1]] eqn:E1; [discriminate|].
       destruct (lin n e2 r s1) as [er|[lb s2]] eqn:E2; [discriminate|]. inversion H; subst c s'; clear H.
-      pose proof (IH _ _ _ _ _ O1 Np1 I Ix1 T1 E1) as Sp1. destruct Sp1 as [I1 [G1 Rest1]].
-      assert (Np2' : noprune (s_an s1) e2 = true) by (rewrite (noprune_grows s s1 e2 G1 Ix2); exact Np2).
-      pose proof (IH _ _ _ _ _ O2 Np2' I1 (fun k Hk => grows_keys _ _ G1 k (Ix2 k Hk)) T2 E2) as Sp2.
+      pose proof (IH _ _ _ _ _ O1 I Ix1 T1 E1) as Sp1. destruct Sp1 as [I1 [G1 Rest1]].
+      pose proof (IH _ _ _ _ _ O2 I1 (fun k Hk => grows_keys _ _ G1 k (Ix2 k Hk)) T2 E2) as Sp2.
       apply (spec_bin (BinOp Add e1 e2) e1 e2 r r r l_merge_add Rplus s la s1 lb s2 I O2 Ix2); [| | | |exact (conj I1 (conj G1 Rest1))|exact Sp2].
       * intros sigma v Hv. destruct (ev_binop_inv _ _ _ _ _ Hv) as [x [y [Ex [Ey Hop]]]]. cbn in Hop. inversion Hop. eauto.
       * intros A x y. apply merge_add_ok.
@@ -1797,9 +1836,8 @@ Proof.
     + (* Sub *)
       unfold bind in H. destruct (lin n e1 r s) as [er|[la s1]] eqn:E1; [discriminate|].
       destruct (lin n e2 (req_reversed r) s1) as [er|[lb s2]] eqn:E2; [discriminate|]. inversion H; subst c s'; clear H.
-      pose proof (IH _ _ _ _ _ O1 Np1 I Ix1 T1 E1) as Sp1. destruct Sp1 as [I1 [G1 Rest1]].
-      assert (Np2' : noprune (s_an s1) e2 = true) by (rewrite (noprune_grows s s1 e2 G1 Ix2); exact Np2).
-      pose proof (IH _ _ _ _ _ O2 Np2' I1 (fun k Hk => grows_keys _ _ G1 k (Ix2 k Hk)) T2 E2) as Sp2.
+      pose proof (IH _ _ _ _ _ O1 I Ix1 T1 E1) as Sp1. destruct Sp1 as [I1 [G1 Rest1]].
+      pose proof (IH _ _ _ _ _ O2 I1 (fun k Hk => grows_keys _ _ G1 k (Ix2 k Hk)) T2 E2) as Sp2.
       apply (spec_bin (BinOp Sub e1 e2) e1 e2 r r (req_reversed r) l_merge_sub Rminus s la s1 lb s2 I O2 Ix2); [| | | |exact (conj I1 (conj G1 Rest1))|exact Sp2].
       * intros sigma v Hv. destruct (ev_binop_inv _ _ _ _ _ Hv) as [x [y [Ex [Ey Hop]]]]. cbn in Hop. inversion Hop. eauto.
       * intros A x y. apply merge_sub_ok.
@@ -1815,7 +1853,7 @@ Proof.
            apply ev_Num_inv in Ex as [q' [E ->]]. inversion E; subst q'. rewrite (proj2 (from_rhs_sound sigma 0%Q)), Q2R_0, Z. lra.
         -- apply xq_is_zero_Fin_false in Z. unfold bind in H.
            destruct (lin n e2 (through_scale r (Fin q)) s) as [er|[lv s1]] eqn:E2; [discriminate|]. inversion H; subst c s'; clear H.
-           pose proof (IH _ _ _ _ _ O2 Np2 I Ix2 T2 E2) as Sp.
+           pose proof (IH _ _ _ _ _ O2 I Ix2 T2 E2) as Sp.
            apply (spec_un (BinOp Mul (Num (Fin q)) e2) e2 r (through_scale r (Fin q)) (fun x => l_mul_by x (Fin q)) (fun y => Q2R q * y) s lv s1 O2 Ix2); [| | | |exact Sp].
            ++ intros sigma v _ Hv. destruct (ev_binop_inv _ _ _ _ _ Hv) as [x [y [Ex [Ey Hop]]]]. cbn in Hop. inversion Hop.
               apply ev_Num_inv in Ex as [q' [E ->]]. inversion E; subst q'. eauto.
@@ -1836,7 +1874,7 @@ Proof.
            apply ev_Num_inv in Ey as [q' [E ->]]. inversion E; subst q'. rewrite (proj2 (from_rhs_sound sigma 0%Q)), Q2R_0, Z. lra.
         -- apply xq_is_zero_Fin_false in Z. unfold bind in Hstep.
            destruct (lin n e1 (through_scale r (Fin q)) s) as [er|[lv s1]] eqn:E1; [discriminate|]. inversion Hstep; subst c s'; clear Hstep.
-           pose proof (IH _ _ _ _ _ O1 Np1 I Ix1 T1 E1) as Sp.
+           pose proof (IH _ _ _ _ _ O1 I Ix1 T1 E1) as Sp.
            apply (spec_un (BinOp Mul e1 (Num (Fin q))) e1 r (through_scale r (Fin q)) (fun x => l_mul_by x (Fin q)) (fun y => Q2R q * y) s lv s1 O1 Ix1); [| | | |exact Sp].
            ++ intros sigma v _ Hv. destruct (ev_binop_inv _ _ _ _ _ Hv) as [x [y [Ex [Ey Hop]]]]. cbn in Hop. inversion Hop.
               apply ev_Num_inv in Ey as [q' [E ->]]. inversion E; subst q'. exists x. split; [exact Ex|ring].
@@ -1850,7 +1888,7 @@ Proof.
       destruct (xq_is_zero (Fin q)) eqn:Z; [discriminate|]. unfold bind in H.
       rewrite (through_scale_div r q NZ) in H.
       destruct (lin n e1 (through_scale r (Fin q)) s) as [er|[lv s1]] eqn:E1; [discriminate|]. inversion H; subst c s'; clear H.
-      pose proof (IH _ _ _ _ _ O1 Np1 I Ix1 T1 E1) as Sp.
+      pose proof (IH _ _ _ _ _ O1 I Ix1 T1 E1) as Sp.
       apply (spec_un (BinOp Div e1 (Num (Fin q))) e1 r (through_scale r (Fin q)) (fun x => l_div_by x (Fin q)) (fun y => y / Q2R q) s lv s1 O1 Ix1); [| | | |exact Sp].
       * intros sigma v _ Hv. destruct (ev_binop_inv _ _ _ _ _ Hv) as [x [y [Ex [Ey Hop]]]].
         apply ev_Num_inv in Ey as [q' [E ->]]. inversion E; subst q'. cbn [ev_binop] in Hop.
@@ -1859,9 +1897,9 @@ Proof.
       * intros x Fx. split; [exact (proj1 (div_by_sound (fun _ => 0) x q Fx NZ))|intros sigma; exact (proj2 (div_by_sound sigma x q Fx NZ))].
       * intros x vx. apply rel_div. exact NZ.
   - (* UnOp Neg *)
-    destruct op; [|discriminate]. cbn [okexp noprune xvars] in Ok, Np, Ix. pose proof (tot_neg _ Tt) as Tx.
+    destruct op; [|discriminate]. cbn [okexp xvars] in Ok, Ix. pose proof (tot_neg _ Tt) as Tx.
     unfold bind in H. destruct (lin n e (req_reversed r) s) as [er|[lv s1]] eqn:E1; [discriminate|]. inversion H; subst c s'; clear H.
-    pose proof (IH _ _ _ _ _ Ok Np I Ix Tx E1) as Sp.
+    pose proof (IH _ _ _ _ _ Ok I Ix Tx E1) as Sp.
     apply (spec_un (UnOp Neg e) e r (req_reversed r) (fun x => l_mul_by x (Fin (-1)%Q)) Ropp s lv s1 Ok Ix); [| | | |exact Sp].
     + intros sigma v _ Hv. unfold ev in *. rewrite evg_Neg in Hv. destruct (evg sigma false e) as [t|]; [|discriminate]. inversion Hv. eauto.
     + intros A x Hx. apply mul_by_ok. exact Hx.
@@ -1877,7 +1915,7 @@ Definition step_ok (c : constr) (s : lst) : bool :=
       match try_normalize_logic_constraint s l (c_cmp c) r with
       | Some _ => false
       | None => match fs_pure (BinOp Sub l r) with
-                | Some e => okexp e && forallb (set_mem (keys s)) (xvars e) && noprune (s_an s) e
+                | Some e => okexp e && forallb (set_mem (keys s)) (xvars e)
                 | None => false
                 end
       end
@@ -1901,7 +1939,7 @@ Proof.
   intros I [NA [Pl [Pr [Il Ir]]]] SO H. unfold step_ok in SO.
   destruct (fs_pure (c_lhs c)) as [l|] eqn:Fl; [|discriminate]. destruct (fs_pure (c_rhs c)) as [r|] eqn:Fr; [|discriminate].
   destruct (try_normalize_logic_constraint s l (c_cmp c) r) eqn:TN; [discriminate|].
-  destruct (fs_pure (BinOp Sub l r)) as [e|] eqn:Fe; [|discriminate]. apply andb_true_iff in SO as [SO Npe]. apply andb_true_iff in SO as [Oe Ve].
+  destruct (fs_pure (BinOp Sub l r)) as [e|] eqn:Fe; [|discriminate]. apply andb_true_iff in SO as [Oe Ve].
   apply forallb_mem_incl in Ve.
   unfold process_constraint, bind in H. rewrite flatten_simplify_eq, Fl in H. rewrite flatten_simplify_eq, Fr in H.
   rewrite NA in H. unfold get_st in H. rewrite TN in H.
@@ -1916,7 +1954,7 @@ Proof.
     assert (Ts : evT sigma (BinOp Sub l r) = Some (a - b)) by (unfold evT in *; rewrite evg_BinOp, Tl, Tr; reflexivity).
     exact (proj2 (fs_pure_sound sigma _ _ _ Fe Ts)). }
   assert (Te : tot e) by (intros sigma; destruct (Vals sigma) as [a [b [_ [_ E]]]]; eauto).
-  destruct (lin_ok _ _ _ _ _ _ Oe Npe I Ve Te EL) as [I2 [G2 [K2 [F2 [S2 C2]]]]].
+  destruct (lin_ok _ _ _ _ _ _ Oe I Ve Te EL) as [I2 [G2 [K2 [F2 [S2 C2]]]]].
   set (row := mkRow (c_name c) (l_vars v) (xq_neg (l_rhs v)) (c_cmp c)).
   change (mkS (s_queue s2) (s_rows s2 ++ [row]) (s_cnt s2) (s_dom s2) (s_an s2)) with (pushr s2 row).
   destruct F2 as [Fv Fr2]. destruct (fin_neg (l_rhs v) Fr2) as [Fn Vn].
@@ -2131,7 +2169,7 @@ Definition compile_trace (m : model) : bool :=
   match fs_pure (m_obj m) with
   | None => false
   | Some o =>
-      okexp o && forallb (set_mem (keys (init_state m))) (xvars o) && noprune (s_an (init_state m)) o &&
+      okexp o && forallb (set_mem (keys (init_state m))) (xvars o) &&
       match linearize_exp o (req_of_dir (m_dir m)) (init_state m) with
       | inr (_, s1) => trace_ok (loop_fuel m) s1
       | inl _ => false
@@ -2205,7 +2243,7 @@ Proof.
   intros BM HC. pose proof (INV_init m BM) as I0. pose proof (fun rho => init_sat m rho BM) as Hinit.
   destruct BM as [_ _ _ _ Pobj _ Tr]. rewrite compile_unfold in HC. unfold compile_trace in Tr.
   destruct (fs_pure (m_obj m)) as [o|] eqn:Fo; [|discriminate].
-  apply andb_true_iff in Tr as [Tr Tl]. apply andb_true_iff in Tr as [Tr Npo]. apply andb_true_iff in Tr as [Oo Vo]. apply forallb_mem_incl in Vo.
+  apply andb_true_iff in Tr as [Tr Tl]. apply andb_true_iff in Tr as [Oo Vo]. apply forallb_mem_incl in Vo.
   destruct (linearize_exp o (req_of_dir (m_dir m)) (init_state m)) as [er|[lobj s1]] eqn:EL; [discriminate|].
   destruct (main_loop (loop_fuel m) s1) as [er|[u s2]] eqn:EM; [discriminate|]. injection HC as <-.
   assert (Vobj : forall sigma v, ev sigma (m_obj m) = Some v -> ev sigma o = Some v).
@@ -2214,7 +2252,7 @@ Proof.
   assert (To : tot o).
   { intros sigma. destruct (plainA_total sigma _ Pobj) as [v [_ Ev]]. exists v. apply Vobj. exact Ev. }
   unfold linearize_exp in EL.
-  destruct (lin_ok _ _ _ _ _ _ Oo Npo I0 Vo To EL) as [I1 [G1 [K1 [F1 [S1 C1]]]]].
+  destruct (lin_ok _ _ _ _ _ _ Oo I0 Vo To EL) as [I1 [G1 [K1 [F1 [S1 C1]]]]].
   destruct (main_loop_ok _ _ _ _ I1 Tl EM) as [I2 [E2 [Q2 [S2 C2]]]].
   assert (K2 : ctx_ok (keys s2) lobj) by (eapply ctx_ok_mono; [apply ext_keys; exact E2|exact K1]).
   split.
@@ -2343,6 +2381,16 @@ Definition m2 : model :=
      mkConstr "cap" (BinOp Add (Max [Var "x"; Abs (Var "y")]) (Var "x")) Le (Num (Fin 7%Q)) false;
      mkConstr "" (Max [BinOp Mul (Num (Fin 2%Q)) (Var "x"); Var "y"]) Ge (Num (Fin 1%Q)) false]
     [("x", mkDV (TReal (Fin (-4)%Q) (Fin 6%Q)) true); ("y", mkDV (TReal (Fin (-3)%Q) (Fin 5%Q)) true)].
+(* ... and with operands that are pruned as dominated: max{x, -20, y - 30} keeps x alone, min{x, 40, y} drops 40 *)
+Definition m3 : model :=
+  mkModel DMax (BinOp Sub (Min [Var "x"; Num (Fin 40%Q); Var "y"]) (Var "y"))
+    [mkConstr "" (Max [Var "x"; Num (Fin (-20)%Q); BinOp Sub (Var "y") (Num (Fin 30%Q))]) Le (Num (Fin 3%Q)) false;
+     mkConstr "" (BinOp Add (Max [Var "x"; Var "y"; Num (Fin (-9)%Q)]) (Var "x")) Ge (Num (Fin 1%Q)) false]
+    [("x", mkDV (TReal (Fin (-4)%Q) (Fin 6%Q)) true); ("y", mkDV (TReal (Fin (-3)%Q) (Fin 5%Q)) true)].
+Example m3_in_fragment : abs_modelb m3 = true.
+Proof. vm_compute. reflexivity. Qed.
+Example m3_prunes : retained_indices KMax (map (bounds_of (s_an (init_state m3))) [Var "x"; Num (Fin (-20)%Q); BinOp Sub (Var "y") (Num (Fin 30%Q))]) = [0%nat].
+Proof. vm_compute. reflexivity. Qed.
 Example m2_in_fragment : abs_modelb m2 = true.
 Proof. vm_compute. reflexivity. Qed.
 Example m2_compiles : exists L, compile m2 = inr L /\ (List.length (lm_vars L) > 6)%nat.
